@@ -55,8 +55,8 @@ def main():
             case = json.load(open(replay_path))["case"]
             cases = [{"id": 0, "cfg": case["cfg"], "sched": case["sched"], "label": "replay"}]
         else:
-            for cfgname, what in [("MC_Concurrency.cfg", "as-is code, processes {syncdb, syncdb2, disable, snap, enable}: LocksFree, NoDeadlock, NoLeakAfterClose modulo Z1"),
-                                  ("MC_Concurrency_fixed.cfg", "with the candidate repair of Z1: NoLeakAfterClose outright")]:
+            for cfgname, what in [("MC_Concurrency.cfg", "code as it is (a sync refuses to initialise a DB that is not open), processes {syncdb, syncdb2, disable, snap, enable}: LocksFree, NoDeadlock, NoLeakAfterClose"),
+                                  ("MC_Concurrency_pinned.cfg", "negative control: the pinned code (re-initialises a closed DB): NoLeakAfterClose holds only modulo the Z1 shape")]:
                 r = vlib.run_tlc("Concurrency", cfgname, wd, workers=4, timeout=900)
                 vlib.tlc_expect_ok(r, cfgname)
                 rep.add_tlc(cfgname, r, what)
